@@ -441,7 +441,11 @@ func (c *Ctx) genQueue(name, path string, depth int, t *genTree) map[string]inte
 				tpl["props"] = props
 			}
 			if c.chance(0.5) {
-				tpl["max"] = map[string]interface{}{"memory": fmt.Sprint(10 + c.pick(90))}
+				mx := map[string]interface{}{"memory": fmt.Sprint(10 + c.pick(90))}
+				if c.chance(0.35) {
+					mx["vcore"] = "0" // an explicit limit of zero is not the same as a type the maximum omits
+				}
+				tpl["max"] = mx
 			}
 			if c.chance(0.3) {
 				tpl["guar"] = map[string]interface{}{"memory": fmt.Sprint(1 + c.pick(9))}
